@@ -7,6 +7,7 @@ import SV.TxCache.OrderProofs
 import SV.TxCache.EvictInv
 import SV.TxCache.ReachableProofs
 import SV.GenProofs.TxSelection
+import SV.TxCache.SessionWrapper
 namespace SV.Props.C01
 open SV SV.TxCache
 
@@ -58,5 +59,33 @@ theorem source_detectors_are_the_models (s : Session) (consumed : Bytes → Nat)
        else if s.badGuard it.cur then .skipTx
        else if Gen.nonceDuplicate it.latest.isNone it.cur.nonce (it.latest.getD 0 : Nat) then .skipTx
        else .take) := GenProofs.classify_uses_generated_detectors s consumed it
+
+/-! ### the real selection session is an external, possibly stateful object: the code reads it through a memoising wrapper
+    (`selectionSessionWrapper.getAccountRecord`); `SV.TxCache.SessionWrapper` models that wrapper over an ARBITRARY oracle
+    (answers may differ from call to call, may fail) and proves it refines the pure session of first answers -/
+
+/-- whatever the session answers, the wrapper-threaded selection equals the model's selection for the session of FIRST answers -/
+theorem wrapper_refines_pure_session (v : Variant) (pick : List HItem → Option (HItem × List HItem)) (o : SW.Oracle)
+    (guard : Tx → Bool) (q : SelParams) (fuel : Nat) (heap : List HItem) :
+    SW.selectLoopW v pick o guard q fuel heap SW.W.empty 0 [] =
+      selectLoop v pick (SW.firstAnswers v pick o guard q fuel heap) q fuel heap (fun _ => 0) 0 [] :=
+  SW.selectLoopW_refines v pick o guard q fuel heap
+/-- hence, for ANY oracle: per sender the selected nonces are consecutive and start at the nonce reported at the FIRST (only)
+    query for that sender — 0 on a lookup error or if the sender was never looked up -/
+theorem nonce_run_for_any_session_oracle (v : Variant) (pick : List HItem → Option (HItem × List HItem)) (hp : PickOk pick)
+    (o : SW.Oracle) (guard : Tx → Bool) (q : SelParams) (bunches : List (List Tx))
+    (hb : ∀ b ∈ bunches, BunchOk b) (hd : BunchesDistinct bunches) (fuel : Nat) (snd : Bytes) :
+    ∃ k, noncesOf snd (SW.selectLoopW v pick o guard q fuel (initHeap bunches) SW.W.empty 0 []).1 =
+      List.range'
+        (match (SW.finalW v pick o guard q fuel (initHeap bunches) SW.W.empty 0 []).queryIndex snd with
+          | some i => ((o i snd).map (·.1)).getD 0
+          | none => 0) k := SW.selectLoopW_nonce_run v pick hp o guard q bunches hb hd fuel snd
+/-- each account is looked up at most once per selection -/
+theorem each_account_looked_up_once (v : Variant) (pick : List HItem → Option (HItem × List HItem)) (o : SW.Oracle)
+    (guard : Tx → Bool) (q : SelParams) (fuel : Nat) (heap : List HItem) :
+    (SW.finalW v pick o guard q fuel heap SW.W.empty 0 []).calls
+        = ((SW.finalW v pick o guard q fuel heap SW.W.empty 0 []).records.map (·.1)).length ∧
+    ((SW.finalW v pick o guard q fuel heap SW.W.empty 0 []).records.map (·.1)).Nodup :=
+  SW.getRecord_at_most_once v pick o guard q fuel heap
 
 end SV.Props.C01
